@@ -7,6 +7,7 @@ export GOFLAGS=-mod=mod GOPROXY=off GOSUMDB=off GOTOOLCHAIN=local
 SD=$1; NAME=$2; shift 2
 PATCH=$SD/patch.diff
 WT=/tmp/seedv/$NAME
+mkdir -p /tmp/seedv
 rm -rf $WT; git -C /repo worktree prune; git -C /repo worktree add -q --detach $WT HEAD || exit 2
 echo "== verifying $NAME"
 ( cd $WT && git apply $PATCH ) || { echo "PATCH DOES NOT APPLY"; git -C /repo worktree remove --force $WT; exit 2; }
@@ -16,12 +17,9 @@ if [ -d /tmp/seedkit/demo_$NAME ]; then
   ( cd $WT && git checkout -q -- . )
   ( cd /tmp/seedkit && timeout 600 go run ./demo_$NAME $WT > /tmp/seedv/$NAME.without.log 2>&1; echo "demo without change: exit=$?" )
 fi
-git -C /repo worktree remove --force $WT
-echo "== running checks on /repo with the change"
-git -C /repo status --porcelain | grep -q . && { echo "/repo dirty"; exit 2; }
-git -C /repo apply $PATCH || exit 2
+echo "== running checks on the scratch worktree with the change (VERIF_REPO; /repo is not touched)"
+( cd $WT && git apply $PATCH ) || exit 2
 for p in "$@"; do
-  ( cd /verif && bin/pgtmc check $p --tier quick > /tmp/seedv/$NAME.$p.log 2>&1; echo "$p exit=$? $(grep -c '^violation' /tmp/seedv/$NAME.$p.log) violations; $(grep '^violation' /tmp/seedv/$NAME.$p.log | head -2 | cut -c1-260)" )
+  ( cd /verif && VERIF_REPO=$WT bin/pgtmc check $p --tier quick > /tmp/seedv/$NAME.$p.log 2>&1; echo "$p exit=$? $(grep -c '^violation' /tmp/seedv/$NAME.$p.log) violations; $(grep '^violation' /tmp/seedv/$NAME.$p.log | head -2 | cut -c1-260)" )
 done
-git -C /repo checkout -- .
-git -C /repo status --porcelain
+git -C /repo worktree remove --force $WT
